@@ -459,13 +459,9 @@ impl CampStats {
 }
 
 
-fn has_merge<S: Sut>(w: &World<S>, cfg: &Cfg) -> bool {
-    w.merged || cfg.mon & (mon::STALE | mon::LAWS | mon::HYBRID) != 0
-}
-
 pub fn taints_of<S: Sut>(w: &World<S>, cfg: &Cfg, k: Bits) -> BTreeSet<&'static str> {
     let facts = if k != 0 { w.facts_of(k) } else { w.facts.clone() };
-    taint::taints(&facts, &w.facts, has_merge(w, cfg), w.t7_fired)
+    taint::taints(&facts, &w.facts, w.t1_fired, w.t2_fired, w.t7_fired)
 }
 
 pub fn schedule_hash(script: &[Act]) -> u64 {
